@@ -103,7 +103,7 @@ class C02(Prop):
         await self.rig.close()
 
     def cases(self, tier, seed, shard, nshards):
-        n = {"quick": 11_520, "thorough": 115_200}[tier]
+        n = {"quick": 11_520, "thorough": 576_000}[tier]
         for i in range(shard, n, nshards):
             yield {"i": i, "seed": seed}
 
